@@ -243,6 +243,15 @@ func passGates(name, src string) (string, int) {
 			case *ast.BlockStmt, *ast.LabeledStmt, *ast.TypeSwitchStmt:
 				probe = nil
 			}
+			if isLock(s) && !locked {
+				// X.Lock() becomes verifLock(X.TryLock, func() { X.Lock() }): under the
+				// scheduler a goroutine that finds the mutex taken parks at a gate and
+				// tries again later, instead of blocking where neither the scheduler
+				// nor synctest can see it (a mutex held across a blocking operation)
+				recv := text(s.(*ast.ExprStmt).X.(*ast.CallExpr).Fun.(*ast.SelectorExpr).X)
+				inserts = append(inserts, ins{off(s.Pos()), fmt.Sprintf("verifLock(%s.TryLock, func() { ", recv)})
+				inserts = append(inserts, ins{off(s.End()), " })"})
+			}
 			if probe != nil && !locked && hasSync(probe) {
 				gate(s.Pos(), "")
 			}
